@@ -55,7 +55,20 @@ type Op struct {
 	Mode    uint32 `json:"mode,omitempty"`
 	Sec     int64  `json:"sec,omitempty"`
 	Nsec    int64  `json:"nsec,omitempty"`
-	Node    string `json:"node,omitempty"` // put: file | raw | filemeta | dir
+	Node    string `json:"node,omitempty"`  // put: file | raw | filemeta | dir
+	Steps   []Step `json:"steps,omitempty"` // fd: what happens on the one write descriptor before Close
+}
+
+// Step is one call on the write descriptor that an "fd" op keeps open: WriteAt / Seek+Write,
+// Truncate, or FileDescriptor.Flush. Check asks for a comparison of the root DAG right after
+// a Flush step (the descriptor has nothing pending then, so the model is unambiguous).
+type Step struct {
+	K     string `json:"k"` // write | trunc | flush
+	Off   int    `json:"off,omitempty"`
+	Size  int    `json:"size,omitempty"`
+	Seek  bool   `json:"seek,omitempty"`
+	Data  []byte `json:"data,omitempty"`
+	Check bool   `json:"check,omitempty"`
 }
 
 type Case struct {
@@ -174,7 +187,7 @@ func genTime(t *rapid.T) (int64, int64) {
 func (g *genState) op(maxData int) Op {
 	t := g.t
 	kind := rapid.SampledFrom([]string{
-		"mkdir", "mkdir", "mkdir", "put", "put", "write", "write", "write", "trunc",
+		"mkdir", "mkdir", "mkdir", "put", "put", "write", "write", "write", "trunc", "fd", "fd",
 		"mv", "mv", "mv", "mv", "mv", "rm", "rm", "chmod", "touch", "flush", "flushpath",
 		"lookup", "list", "read", "check", "reopen",
 	}).Draw(t, "kind")
@@ -214,6 +227,38 @@ func (g *genState) op(maxData int) Op {
 		op.Path = g.file("p")
 		op.Size = rapid.IntRange(0, maxData+maxData/2).Draw(t, "size")
 		op.Flush = rapid.Bool().Draw(t, "sync")
+	case "fd":
+		// several calls on ONE write descriptor, with descriptor flushes in between: sizes and
+		// offsets are drawn around the length the model file has at that step
+		op.Path = g.file("p")
+		op.Create = rapid.IntRange(0, 3).Draw(t, "create") > 0
+		op.Flush = rapid.Bool().Draw(t, "sync")
+		var cur []byte
+		inline := false
+		if m := g.model.resolve(splitPath(op.Path)); m != nil && !m.dir {
+			cur, inline = m.data, m.inline
+		}
+		n := rapid.IntRange(1, 6).Draw(t, "nsteps")
+		for i := 0; i < n; i++ {
+			l := len(cur)
+			kinds := []string{"write", "write", "trunc", "trunc", "flush", "flush"}
+			if l == 0 { // nothing to cut yet: mostly put bytes in first
+				kinds = []string{"write", "write", "write", "write", "trunc", "flush"}
+			}
+			st := Step{K: rapid.SampledFrom(kinds).Draw(t, "step")}
+			switch st.K {
+			case "write":
+				st.Off = rapid.SampledFrom([]int{0, l, l / 2, rapid.IntRange(0, l).Draw(t, "woff"), rapid.IntRange(0, maxData).Draw(t, "woff2")}).Draw(t, "woffc")
+				st.Seek = rapid.Bool().Draw(t, "seek")
+				st.Data = kit.Bytes(maxData).Draw(t, "data")
+			case "trunc":
+				st.Size = rapid.SampledFrom([]int{0, l / 2, max(l-1, 0), l, l + 1, rapid.IntRange(0, l).Draw(t, "tsz")}).Draw(t, "tszc")
+			case "flush":
+				st.Check = rapid.Bool().Draw(t, "check")
+			}
+			cur, inline, _, _ = stepEffect(cur, inline, st)
+			op.Steps = append(op.Steps, st)
+		}
 	case "mv":
 		if rapid.Bool().Draw(t, "srcfile") {
 			op.Path = g.file("s")
@@ -414,6 +459,32 @@ func overlay(old []byte, off int, data []byte) []byte {
 	}
 	copy(out[off:], data)
 	return out
+}
+
+// stepEffect is the model of one call on an open write descriptor: the file bytes after
+// the step, plus the effective offset (truncate size) and data the harness passes to the SUT.
+// The domain restrictions are those of the single-call "write" and "trunc" ops: offsets are
+// clamped to the current length, Truncate only shrinks, inline-leaf files are never grown.
+func stepEffect(data []byte, inline bool, st Step) (after []byte, afterInline bool, off int, eff []byte) {
+	switch st.K {
+	case "write":
+		if len(data) == 0 {
+			inline = false
+		}
+		off = min(st.Off, len(data))
+		eff = st.Data
+		if inline && off+len(eff) > len(data) {
+			eff = eff[:len(data)-off]
+		}
+		return overlay(data, off, eff), inline, off, eff
+	case "trunc":
+		off = min(st.Size, len(data))
+		if off == 0 {
+			inline = false
+		}
+		return append([]byte(nil), data[:off]...), inline, off, nil
+	}
+	return data, inline, 0, nil
 }
 
 // ---------------------------------------------------------------------------
@@ -767,10 +838,17 @@ type outcome struct {
 	checked bool // pure comparison op without success/failure expectation
 	f9      bool // matches the signature of known finding F9
 	target  *mnode
-	mvOver  []string // mv: path of the existing file the move must replace (nil if none)
-	off     int      // effective write offset / truncate size
-	data    []byte   // effective write data
+	mvOver  []string  // mv: path of the existing file the move must replace (nil if none)
+	off     int       // effective write offset / truncate size
+	data    []byte    // effective write data
+	steps   []stepEff // fd: effective arguments and expected file bytes per step
 	classes []string
+}
+
+type stepEff struct {
+	off   int
+	data  []byte
+	after []byte // model file content once the step has been done
 }
 
 // apply performs op on the model. The caller restores a clone when !want or skip.
@@ -884,6 +962,69 @@ func (model *mnode) apply(op Op, chunk int, cidV1 bool) (o outcome) {
 		target.contentWritten()
 		o.target = target
 		cls("write")
+
+	case "fd":
+		parts := splitPath(op.Path)
+		if len(parts) == 0 || len(op.Steps) == 0 {
+			o.skip = true
+			return
+		}
+		parent := model.resolveDir(parts[:len(parts)-1])
+		name := parts[len(parts)-1]
+		if parent == nil {
+			return
+		}
+		target := parent.kids[name]
+		if target == nil {
+			if !op.Create {
+				return
+			}
+			target = &mnode{mayRaw: cidV1}
+			parent.kids[name] = target
+			cls("fd:create")
+		} else if target.dir {
+			return
+		}
+		o.want = true
+		// flushed: the descriptor has been flushed and not been written to since;
+		// pendingTrunc: the latest change is a shrinking Truncate made in that state
+		flushed, pendingTrunc := false, false
+		for _, st := range op.Steps {
+			before := len(target.data)
+			var e stepEff
+			target.data, target.inline, e.off, e.data = stepEffect(target.data, target.inline, st)
+			e.after = target.data
+			o.steps = append(o.steps, e)
+			switch st.K {
+			case "write":
+				if flushed {
+					cls("fd:write-after-flush")
+				}
+				if inlineClipped := len(e.data) < len(st.Data); inlineClipped {
+					cls("write:clipped-inline")
+				}
+				flushed, pendingTrunc = false, false
+			case "trunc":
+				if e.off < before {
+					if flushed {
+						pendingTrunc = true
+					}
+					cls("fd:trunc-shrinks")
+				}
+			case "flush":
+				if pendingTrunc {
+					cls("fd:trunc-after-flush,flushed")
+					pendingTrunc = false
+				}
+				flushed = true
+			}
+		}
+		if pendingTrunc {
+			cls("fd:trunc-after-flush,closed")
+		}
+		target.contentWritten()
+		o.target = target
+		cls("fd")
 
 	case "trunc":
 		target := model.resolve(splitPath(op.Path))
@@ -1177,6 +1318,21 @@ func runCase(c Case) kit.Result {
 				}
 			}
 
+		case "fd":
+			var fi *mfs.File
+			fi, err = s.fileHandle(op.Path, op.Create)
+			if err == nil {
+				if !o.want {
+					return kit.Fail("%s: obtained a file handle although the model has no file there", when)
+				}
+				final := o.target.data
+				res := s.fdSession(fi, op, o, when, flushCheck)
+				o.target.data = final
+				if res != nil {
+					return kit.Result{Err: res}
+				}
+			}
+
 		case "trunc":
 			var fi *mfs.File
 			fi, err = s.fileHandle(op.Path, false)
@@ -1392,6 +1548,75 @@ func (s *sut) buildNode(op Op) (ipld.Node, error) {
 	}
 }
 
+// fdSession runs the steps of an "fd" op on one write descriptor and closes it. After a
+// descriptor Flush nothing is pending, so what MFS shows for the file (File.Size) and, when
+// the step asks for it, the flushed root DAG must equal the model as of that step.
+func (s *sut) fdSession(fi *mfs.File, op Op, o outcome, when string, flushCheck func(string) error) error {
+	fd, err := fi.Open(s.ctx, mfs.Flags{Write: true, Sync: op.Flush})
+	if err != nil {
+		return fmt.Errorf("%s: Open for writing: %v", when, err)
+	}
+	closed := false
+	defer func() {
+		if !closed {
+			fd.Close()
+		}
+	}()
+	for i, st := range op.Steps {
+		e := o.steps[i]
+		at := fmt.Sprintf("%s: step %d", when, i)
+		switch st.K {
+		case "write":
+			var n int
+			if st.Seek {
+				if _, err := fd.Seek(int64(e.off), io.SeekStart); err != nil {
+					return fmt.Errorf("%s: Seek(%d): %v", at, e.off, err)
+				}
+				n, err = fd.Write(e.data)
+			} else {
+				n, err = fd.WriteAt(e.data, int64(e.off))
+			}
+			if err != nil {
+				return fmt.Errorf("%s: write(off=%d len=%d) on an open descriptor failed: %v", at, e.off, len(e.data), err)
+			}
+			if n != len(e.data) {
+				return fmt.Errorf("%s: short write %d of %d", at, n, len(e.data))
+			}
+		case "trunc":
+			if err := fd.Truncate(int64(e.off)); err != nil {
+				return fmt.Errorf("%s: Truncate(%d): %v", at, e.off, err)
+			}
+		case "flush":
+			if err := fd.Flush(); err != nil {
+				return fmt.Errorf("%s: descriptor Flush: %v", at, err)
+			}
+			sz, err := fi.Size()
+			if err != nil {
+				return fmt.Errorf("%s: File.Size after descriptor Flush: %v", at, err)
+			}
+			if sz != int64(len(e.after)) {
+				return fmt.Errorf("%s: File.Size %d after descriptor Flush, model %d", at, sz, len(e.after))
+			}
+			if st.Check {
+				o.target.data = e.after
+				if err := flushCheck(at + ": after descriptor Flush"); err != nil {
+					return err
+				}
+			}
+		}
+		if dsz, err := fd.Size(); err != nil {
+			return fmt.Errorf("%s (%s): descriptor Size: %v", at, st.K, err)
+		} else if dsz != int64(len(e.after)) {
+			return fmt.Errorf("%s (%s): descriptor Size %d, model %d", at, st.K, dsz, len(e.after))
+		}
+	}
+	closed = true
+	if err := fd.Close(); err != nil {
+		return fmt.Errorf("%s: Close of the write descriptor: %v", when, err)
+	}
+	return nil
+}
+
 func (s *sut) writeFile(fi *mfs.File, op Op, off int, data []byte) error {
 	fd, err := fi.Open(s.ctx, mfs.Flags{Write: true, Sync: op.Flush})
 	if err != nil {
@@ -1434,6 +1659,19 @@ func describe(op Op) string {
 		return fmt.Sprintf("write(create=%v trunc=%v off=%d len=%d) %s", op.Create, op.Trunc, op.Off, len(op.Data), op.Path)
 	case "trunc":
 		return fmt.Sprintf("truncate(%d) %s", op.Size, op.Path)
+	case "fd":
+		var st []string
+		for _, x := range op.Steps {
+			switch x.K {
+			case "write":
+				st = append(st, fmt.Sprintf("write(off=%d len=%d)", x.Off, len(x.Data)))
+			case "trunc":
+				st = append(st, fmt.Sprintf("truncate(%d)", x.Size))
+			default:
+				st = append(st, "flush")
+			}
+		}
+		return fmt.Sprintf("fd(create=%v sync=%v)[%s] %s", op.Create, op.Flush, strings.Join(st, " "), op.Path)
 	case "put":
 		return fmt.Sprintf("put(%s,len=%d) %s", op.Node, len(op.Data), op.Path)
 	default:
@@ -1443,7 +1681,7 @@ func describe(op Op) string {
 
 var spec = kit.Spec[Case]{
 	Prop: "C19", Name: "main",
-	Rule:  "op list (<=30 + mkdir -p prologue) over paths {a,b,x}/{a,b,x}/{a,b,x,f,g}: mkdir(+-parents), PutNode, create/write/truncate through descriptors, Mv, Unlink, Chmod, Touch, Flush/FlushPath, Lookup/List/read, reopen from the flushed root; root options maxLinks 2-4 / HAMT size 100-300 / fanout 8-16 / chunker size-16..64 / CIDv0|v1; compared op by op with a tree model and, after Flush, through uio.Directory/DagReader; non-trivial = a successful-precondition Mv between distinct parents with equal names and equal entry name, or a HAMT-sharded directory in a flushed DAG",
+	Rule:  "op list (<=30 + mkdir -p prologue) over paths {a,b,x}/{a,b,x}/{a,b,x,f,g}: mkdir(+-parents), PutNode, create/write/truncate through descriptors (one call per descriptor, or 1-6 WriteAt/Truncate/descriptor-Flush calls on one write descriptor with File.Size and the root DAG compared after a descriptor Flush), Mv, Unlink, Chmod, Touch, Flush/FlushPath, Lookup/List/read, reopen from the flushed root; root options maxLinks 2-4 / HAMT size 100-300 / fanout 8-16 / chunker size-16..64 / CIDv0|v1; compared op by op with a tree model and, after Flush, through uio.Directory/DagReader; non-trivial = a successful-precondition Mv between distinct parents with equal names and equal entry name, or a HAMT-sharded directory in a flushed DAG",
 	Quick: 600, Thorough: 4000,
 	Gen: gen, Run: run,
 	Sample: func(c Case) any {
